@@ -31,6 +31,8 @@ type c08bCase struct {
 	// Deep: `lalr(2)`, and predicate Pj (j <= M-3) is written so that recognising it needs two
 	// tokens of lookahead: `Bit^j A Bit 'T' | Bit^j B Bit 'F'` with A: 'T'; B: 'T'.
 	Deep bool `json:"deep,omitempty"`
+	// Min: minimizeDFA = true.
+	Min bool `json:"minimize,omitempty"`
 }
 
 func c08bGen(t *rapid.T) c08bCase {
@@ -42,6 +44,7 @@ func c08bGen(t *rapid.T) c08bCase {
 	c.Nested = c.Recursive && rapid.Bool().Draw(t, "nested")
 	c.Stream = rapid.IntRange(0, 2).Draw(t, "stream") == 0
 	c.Deep = rapid.IntRange(0, 2).Draw(t, "deep") == 0
+	c.Min = rapid.IntRange(0, 2).Draw(t, "minimize") == 0
 	if rapid.IntRange(0, 3).Draw(t, "anySet") == 0 {
 		c.C = c08Gen(t) // any set, most are rejected by the compiler
 		return c
@@ -74,7 +77,7 @@ func (c *c08bCase) tail(alt int) string {
 
 func (c *c08bCase) render(name string) string {
 	var sb strings.Builder
-	fmt.Fprintf(&sb, "language %s(go);\n\npackage = \"scratch/%s\"\neventBased = true\ncancellable = %v\nrecursiveLookaheads = %v\noptimizeTables = %v\ntokenStream = %v\n\n:: lexer\n\n'T': /T/\n'F': /F/\n';': /;/\n\n:: parser%s\n\n%%input File;\n\nFile:\n    %s%s ;\n\n", name, name, c.Cancellable, c.Recursive, c.Opt, c.Stream,
+	fmt.Fprintf(&sb, "language %s(go);\n\npackage = \"scratch/%s\"\neventBased = true\ncancellable = %v\nrecursiveLookaheads = %v\noptimizeTables = %v\ntokenStream = %v\nminimizeDFA = %v\n\n:: lexer\n\n'T': /T/\n'F': /F/\n';': /;/\n\n:: parser%s\n\n%%input File;\n\nFile:\n    %s%s ;\n\n", name, name, c.Cancellable, c.Recursive, c.Opt, c.Stream, c.Min,
 		map[bool]string{true: " lalr(2)", false: ""}[c.Deep], map[bool]string{true: "Wrap", false: "Item"}[c.Nested], map[bool]string{true: "+", false: ""}[c.Many])
 	if c.Nested {
 		// (the second alternative is never taken on a valid input: Chk is the item itself)
@@ -204,7 +207,7 @@ func c08bCheck(c c08bCase, res *batch.Result, run runFunc, r *ev.Recorder) *Fail
 func TestC08B(t *testing.T) {
 	p := &batchProp[c08bCase]{
 		ID:        "C08",
-		Rule:      "generated code: the C08 generator's sets of 2..5 lookahead alternatives over 1..4 predicates, rendered as `Item: (?= P0 & !P1) Body -> Alt0 | ...` where predicate Pj is the nonterminal `Bit^j 'T'` (token j of the input is 'T') and Body is M bits and ';'; options cancellable, recursiveLookaheads, optimizeTables, tokenStream on/off; half of the recursive cases recognise every item inside a lookahead first (`Wrap: (?= Chk) Item | (?= !Chk) Item ';' ';'; Chk: Item`, alternative i then ends in i extra 'T' and a ';': the decision code runs nested and a wrong nested decision makes Chk fail), a third are lalr(2) with predicates that need two tokens of lookahead themselves. Sets the compiler rejects are outside this test (the rejection rule is checked in process by TestC08). Every input of M bits is a truth assignment; for each assignment that satisfies exactly one conjunction the generated parser must accept and report that alternative's node. Non-trivial: an accepted set with >= 2 decided assignments; distinct by case JSON.",
+		Rule:      "generated code: the C08 generator's sets of 2..5 lookahead alternatives over 1..4 predicates, rendered as `Item: (?= P0 & !P1) Body -> Alt0 | ...` where predicate Pj is the nonterminal `Bit^j 'T'` (token j of the input is 'T') and Body is M bits and ';'; options cancellable, recursiveLookaheads, optimizeTables, tokenStream on/off, minimizeDFA in a third; half of the recursive cases recognise every item inside a lookahead first (`Wrap: (?= Chk) Item | (?= !Chk) Item ';' ';'; Chk: Item`, alternative i then ends in i extra 'T' and a ';': the decision code runs nested and a wrong nested decision makes Chk fail), a third are lalr(2) with predicates that need two tokens of lookahead themselves. Sets the compiler rejects are outside this test (the rejection rule is checked in process by TestC08). Every input of M bits is a truth assignment; for each assignment that satisfies exactly one conjunction the generated parser must accept and report that alternative's node. Non-trivial: an accepted set with >= 2 decided assignments; distinct by case JSON.",
 		Quick:     64, Thorough: 1280, BatchSize: 64,
 		Gen:       c08bGen,
 		Unit: func(c c08bCase, name string) (batch.Unit, bool) {
